@@ -42,6 +42,8 @@ pub mod c13b;
 pub mod c14;
 #[cfg(feature = "c14b")]
 pub mod c14b;
+#[cfg(feature = "c14c")]
+pub mod c14c;
 #[cfg(feature = "c15")]
 pub mod c15;
 #[cfg(feature = "c15b")]
@@ -361,6 +363,10 @@ pub fn run_request(req: &str) -> String {
     #[cfg(feature = "c14b")]
     {
         ans = ans.or_else(|| c14b::run_request(cmd, &args));
+    }
+    #[cfg(feature = "c14c")]
+    {
+        ans = ans.or_else(|| c14c::run_request(cmd, &args));
     }
     #[cfg(feature = "c15")]
     {
